@@ -9,16 +9,17 @@
  * ASSUMED for r = a*b with a, b finite (not NaN, not +-inf):
  *   M1  r is not NaN                                     (NaN arises only from 0*inf or a NaN operand)
  *   M2  sign rule: equal signs ==> r >= 0, opposite signs ==> r <= 0   (+-0 counts for both; r may be +-inf by overflow)
- *   M3  |b| <= 1 ==> |r| <= |a|   and   |a| <= 1 ==> |r| <= |b|
- *       (the exact product is <= |a|, |a| is representable, rounding is monotone)
+ *   M3  |b| <= 1 ==> |r| <= |a|     (the exact product is <= |a|, |a| is representable, rounding is monotone; only for the
+ *       SECOND factor -- write the small factor on the right; the mirrored fact is not needed and not assumed)
  * ASSUMED for r = a/b with a, b finite and b != 0:
  *   D1  r is not NaN
  *   D2  sign rule as for the product
  *   D3  |b| >= 1 ==> |r| <= |a|                           (same argument as M3)
  * Nothing is assumed when an operand is NaN or infinite, or for a division by zero.
- * M1, M2, D1, D2 are PROVED against CBMC's bit-precise '*' and '/' by the lemma harnesses
- * h_lemma_fmul_sign / h_lemma_fdiv_sign in specs/gfterm.c; M3 and D3 are not (no answer in 1500 s) and remain
- * assumptions (textbook consequences of correct rounding, IEEE 754-2008 section 4.3 / 5.4.1).
+ * Every one of these facts is PROVED against CBMC's bit-precise '*' and '/' by a lemma harness in specs/gfterm.c
+ * (h_lemma_fmul_sign, h_lemma_fdiv_sign: < 1 s;  h_lemma_fmul_mag, h_lemma_fdiv_mag: about 3 min each),
+ * so a harness built with -DVERIF_FP_AXIOM relies on CBMC's float model only, in two steps (lemma + use).
+ * They are nevertheless written as __CPROVER_assume below: if a lemma harness is not `pass`, the fact is an assumption.
  *
  * Optional hook: define FA_DIV_HOOK(a,b) before including this file to observe the operands of each division.
  */
@@ -44,8 +45,7 @@ static inline _Bool fa_mul_sign_ok(double a, double b, double r)
 static inline _Bool fa_mul_mag_ok(double a, double b, double r)
 {
   if (!(d_finite(a) && d_finite(b))) return 1;
-  return (!(fa_abs(b) <= 1.0) || fa_abs(r) <= fa_abs(a))                            /* M3 */
-      && (!(fa_abs(a) <= 1.0) || fa_abs(r) <= fa_abs(b));
+  return !(fa_abs(b) <= 1.0) || fa_abs(r) <= fa_abs(a);                             /* M3 */
 }
 static inline _Bool fa_div_sign_ok(double a, double b, double r)
 {
@@ -63,7 +63,7 @@ static inline double d_mul_ax(double a, double b)
 {
   double r = __CPROVER_uninterpreted_fmul(a, b);
   __CPROVER_assume(fa_mul_sign_ok(a, b, r));   /* ASSUMED M1, M2 (proved: h_lemma_fmul_sign) */
-  __CPROVER_assume(fa_mul_mag_ok(a, b, r));    /* ASSUMED M3 */
+  __CPROVER_assume(fa_mul_mag_ok(a, b, r));    /* ASSUMED M3 (proved: h_lemma_fmul_mag) */
   return r;
 }
 static inline double d_div_ax(double a, double b)
@@ -71,7 +71,7 @@ static inline double d_div_ax(double a, double b)
   FA_DIV_HOOK(a, b);
   double r = __CPROVER_uninterpreted_fdiv(a, b);
   __CPROVER_assume(fa_div_sign_ok(a, b, r));   /* ASSUMED D1, D2 (proved: h_lemma_fdiv_sign) */
-  __CPROVER_assume(fa_div_mag_ok(a, b, r));    /* ASSUMED D3 */
+  __CPROVER_assume(fa_div_mag_ok(a, b, r));    /* ASSUMED D3 (proved: h_lemma_fdiv_mag) */
   return r;
 }
 /* the machine operations themselves (for the lemma harnesses) */
